@@ -2,8 +2,13 @@ package checks
 
 import (
 	"bytes"
+	"crypto/sha256"
+	"encoding/hex"
 	"encoding/json"
 	"fmt"
+	"go/parser"
+	"go/printer"
+	"go/token"
 	"os"
 	"path/filepath"
 	"regexp"
@@ -14,6 +19,7 @@ import (
 
 	"github.com/200sc/bebop"
 
+	"verif/harness/internal/genrun"
 	"verif/harness/internal/tlc"
 )
 
@@ -55,7 +61,9 @@ func fileBody(ic *importCase, i int) string {
 	if f.Pkg != "" {
 		fmt.Fprintf(&b, "const string go_package = \"example.com/x/%s\";\n", f.Pkg)
 	}
-	fmt.Fprintf(&b, "struct T%d {\n\tint32 x;\n}\n", i)
+	// the files use different primitive types, so that what the output must import from Go depends on which files are reached
+	extra := []string{"", "\tdate d;\n", "\tstring s;\n\tguid g;\n", "\tmap[string, date[]] m;\n"}[(i-1)%4]
+	fmt.Fprintf(&b, "struct T%d {\n\tint32 x;\n%s}\n", i, extra)
 	fmt.Fprintf(&b, "message U%d {\n\t1 -> int32 z;\n", i)
 	for k, j := range f.Imports {
 		fmt.Fprintf(&b, "\t%d -> T%d a%d;\n", k+2, j, j)
@@ -86,6 +94,28 @@ func definedTypes(src []byte) []string {
 }
 
 func generateRoot(path string, mode string, timeout time.Duration) (res, msg string, types []string) {
+	res, msg, types, _ = generateRootSrc(path, mode, timeout)
+	return
+}
+
+// codeOf is the generated file's declarations without comments, sorted: two outputs with the same codeOf are the same program
+func codeOf(src []byte) string {
+	fset := token.NewFileSet()
+	f, err := parser.ParseFile(fset, "s.go", src, 0)
+	if err != nil {
+		return "unparsable: " + err.Error()
+	}
+	var decls []string
+	for _, d := range f.Decls {
+		var b bytes.Buffer
+		_ = printer.Fprint(&b, fset, d)
+		decls = append(decls, b.String())
+	}
+	sort.Strings(decls)
+	return strings.Join(decls, "\n")
+}
+
+func generateRootSrc(path string, mode string, timeout time.Duration) (res, msg string, types []string, src []byte) {
 	var out bytes.Buffer
 	res, msg = guarded(timeout, func() error {
 		fh, err := os.Open(path)
@@ -105,6 +135,7 @@ func generateRoot(path string, mode string, timeout time.Duration) (res, msg str
 	})
 	if res == "nil" {
 		types = definedTypes(out.Bytes())
+		src = out.Bytes()
 	} else {
 		types = []string{}
 	}
@@ -153,6 +184,7 @@ func runC18(c *Ctx) (int, error) {
 		return a.Mode < b.Mode
 	})
 	base := filepath.Join(c.Work, "fs")
+	toBuild := map[string][]byte{}
 	var events []map[string]interface{}
 	nontriv := 0
 	for ci, ic := range cases {
@@ -167,8 +199,8 @@ func runC18(c *Ctx) (int, error) {
 		if len(ic.Imported) > 0 {
 			nontriv++
 		}
-		res, msg, types := generateRoot(filepath.Join(dir, "f1.bop"), ic.Mode, 20*time.Second)
-		e := map[string]interface{}{"mode": ic.Mode, "res": res, "msg": msg, "iscycle": strings.Contains(msg, "import cycle"), "types": types, "openfail": res == "err" && strings.Contains(msg, "failed to open imported file"),
+		res, msg, types, src := generateRootSrc(filepath.Join(dir, "f1.bop"), ic.Mode, 20*time.Second)
+		e := map[string]interface{}{"samecode": true, "compiles": "", "mode": ic.Mode, "res": res, "msg": msg, "iscycle": strings.Contains(msg, "import cycle"), "types": types, "openfail": res == "err" && strings.Contains(msg, "failed to open imported file"),
 			"pkgcyclic": ic.PkgCyclic, "importcyclic": ic.ImportCyclic, "missingpkg": ic.MissingPkg, "pathbroken": ic.PathBroken,
 			"inlineres": "", "inlinetypes": []string{}, "ladder": false, "n": ic.N, "g": ic.G, "files": ic.Files}
 		if ic.Mode == "combined" && !ic.ImportCyclic {
@@ -180,11 +212,29 @@ func runC18(c *Ctx) (int, error) {
 			}
 			ip := filepath.Join(dir, "inline.bop")
 			_ = os.WriteFile(ip, []byte(b.String()), 0o644)
-			ires, _, itypes := generateRoot(ip, "combined", 20*time.Second)
+			ires, _, itypes, isrc := generateRootSrc(ip, "combined", 20*time.Second)
 			e["inlineres"], e["inlinetypes"] = ires, itypes
+			if res == "nil" && ires == "nil" {
+				e["samecode"] = codeOf(src) == codeOf(isrc)
+				h := sha256.Sum256(src)
+				key := "h" + hex.EncodeToString(h[:8])
+				toBuild[key] = src
+				e["buildkey"] = key
+			}
 		}
 		events = append(events, e)
 		_ = os.RemoveAll(dir)
+	}
+	// every distinct combined output is compiled
+	diags, err := genrun.BuildSources(filepath.Join(c.Work, "cbuild"), toBuild)
+	if err != nil {
+		return 2, infra("%v", err)
+	}
+	for _, e := range events {
+		if k, ok := e["buildkey"].(string); ok {
+			e["compiles"] = diags[k]
+			delete(e, "buildkey")
+		}
 	}
 	// termination in practice: ladders of layered diamonds (2 packages per layer, every package of a layer imports both of the next)
 	layers := []int{8, 14}
@@ -212,7 +262,7 @@ func runC18(c *Ctx) (int, error) {
 		t0 := time.Now()
 		res, msg, types := generateRoot(filepath.Join(dir, name(0, 0)+".bop"), "separate", 60*time.Second)
 		events = append(events, map[string]interface{}{"mode": "separate", "res": res, "msg": msg, "iscycle": strings.Contains(msg, "import cycle"), "types": types, "openfail": false,
-			"pkgcyclic": false, "importcyclic": false, "missingpkg": false, "pathbroken": false, "inlineres": "", "inlinetypes": []string{},
+			"pkgcyclic": false, "importcyclic": false, "missingpkg": false, "pathbroken": false, "samecode": true, "compiles": "", "inlineres": "", "inlinetypes": []string{},
 			"ladder": true, "layers": L, "ms": time.Since(t0).Milliseconds(), "n": 2*L + 1, "g": 0, "files": []int{}})
 		_ = os.RemoveAll(dir)
 	}
@@ -225,8 +275,8 @@ func runC18(c *Ctx) (int, error) {
 	reportParseVerdicts(c, vs, dummy, events, "imports")
 	cov := Coverage{"states": gr.Distinct + st, "transitions": gr.Generated + tr, "traces_validated_against_impl": total["ok"] + total["known"],
 		"events_total": len(events), "evaluations": len(events), "distinct_nontrivial": nontriv,
-		"samples": []interface{}{events[len(events)/3], events[len(events)/2], events[len(events)-1]},
-		"rule":    "graphs = EVERY directed import graph on 1-3 files (4 files with <= 5 edges, seed-sampled third, in thorough) incl. self-imports, diamonds and the root re-imported x 5 go_package assignments (distinct, imported files share one, all share one, last file has none, none) x 3 directory placements x {separate, combined}; files are materialised on disk and generated with the real ReadFile+Generate; plus layered-diamond ladders for termination in practice; Imports.tla model-checks the worklist and the DFS as coded on the same graphs (WorklistExact, DfsExact, DfsLinear); non-trivial = graphs in which the root imports something",
+		"samples":       []interface{}{events[len(events)/3], events[len(events)/2], events[len(events)-1]},
+		"rule":          "graphs = EVERY directed import graph on 1-3 files (4 files with <= 5 edges, seed-sampled third, in thorough) incl. self-imports, diamonds and the root re-imported x 5 go_package assignments (distinct, imported files share one, all share one, last file has none, none) x 3 directory placements x {separate, combined}; files are materialised on disk and generated with the real ReadFile+Generate; plus layered-diamond ladders for termination in practice; Imports.tla model-checks the worklist and the DFS as coded on the same graphs (WorklistExact, DfsExact, DfsLinear); non-trivial = graphs in which the root imports something",
 		"ladder_layers": layers, "open_deviations": devs, "exhaustive": false, "graphs_exhaustive_up_to_files": 3}
 	return c.Finish("model_checking", cov, []string{"Imports.tla is the reading of 'resolves relative to the importing file', 'package graph reachable from the file' and 'inlining every transitively imported file once'", "type sets are read off the generated source with a regular expression over 'type X' declarations"}), nil
 }
